@@ -23,6 +23,7 @@ type Term struct {
 	Deps     []*Term     // raw leaves: symbols mentioned inside
 	Def      *Term       // leaf only: this symbol abbreviates Def (rendered as define-fun); see name()
 	QDef     *Term       // leaf only: Bool symbol defined as equivalent to this quantified formula (asserted as an axiom)
+	Link     *Term       // leaf only (content equalities): a quantifier-free formula equivalent to the symbol, always asserted
 	hasBound bool        // mentions a quantifier-bound variable (never abbreviated)
 	hasSk    bool        // contains the body of a skolemised quantified goal (valid in positive positions only)
 	hasQ     bool        // contains a quantifier (never abbreviated, so that "(forall " stays visible)
@@ -842,6 +843,9 @@ func (t *Term) leaves(m map[string]*Term) {
 		}
 		if t.QDef != nil {
 			t.QDef.leaves(m)
+		}
+		if t.Link != nil {
+			t.Link.leaves(m)
 		}
 		return
 	}
